@@ -212,7 +212,8 @@ func (fs LocalFileSystem) Create(ctx context.Context, name string, body io.ReadC
 	if _, err := io.Copy(wc, body); err != nil {
 		wc.Close()
 		os.Remove(tmpPath)
-		return nil, false, err
+		// a failed write (e.g. disk full) names the temporary file
+		return nil, false, errFromOS(err)
 	}
 	if err := wc.Close(); err != nil {
 		os.Remove(tmpPath)
